@@ -199,6 +199,22 @@ func PhiLeaves(v ssa.Value, at ssa.Instruction) []Leaf {
 	return out
 }
 
+// FeasibleLeaves is PhiLeaves without the leaves that cannot reach the use: a leaf flowing along the edge
+// Pred -> To is dropped when, with the branch that edge forces at To (jump threading), `at` is unreachable.
+func FeasibleLeaves(fn *ssa.Function, v ssa.Value, at ssa.Instruction) []Leaf {
+	var out []Leaf
+	for _, lf := range PhiLeaves(v, at) {
+		if lf.Pred != nil && lf.To != nil {
+			w := PathQuery{Fn: fn, StartEdge: &[2]*ssa.BasicBlock{lf.Pred, lf.To}, Target: func(in ssa.Instruction) bool { return in == at }}.Find()
+			if w == nil {
+				continue
+			}
+		}
+		out = append(out, lf)
+	}
+	return out
+}
+
 // Reach answers "may fn (transitively, through module-internal callees) execute a call satisfying pred?".
 type Reach struct {
 	P    *Prog
@@ -373,6 +389,9 @@ func StructLits(fn *ssa.Function, typeSuffix string) []*StructLit {
 // RangeIndex recognises the index variable of a `for i := range X` / `for i, v := range X` loop over a
 // slice/array/string (go/ssa lowers these to an index phi) and returns the ranged collection.
 func RangeIndex(v ssa.Value) (coll ssa.Value, ok bool) {
+	if c, ok := explicitLoopIndex(v); ok {
+		return c, true
+	}
 	b, isBin := v.(*ssa.BinOp)
 	if !isBin || b.Op != token.ADD {
 		return nil, false
@@ -414,6 +433,88 @@ func RangeElem(v ssa.Value) (coll ssa.Value, idx ssa.Value, ok bool) {
 		return nil, nil, false
 	}
 	return c, ia.Index, true
+}
+
+// explicitLoopIndex: v is the induction variable of `for i := 0; i < len(X); i++` (phi of 0 and phi+1,
+// compared with len(X)); returns X.
+func explicitLoopIndex(v ssa.Value) (ssa.Value, bool) {
+	phi, isPhi := v.(*ssa.Phi)
+	if !isPhi || len(phi.Edges) != 2 || phi.Comment == "rangeindex" {
+		return nil, false
+	}
+	zero, step := false, false
+	for _, e := range phi.Edges {
+		if c, ok := e.(*ssa.Const); ok && c.Value != nil && c.Value.String() == "0" {
+			zero = true
+		}
+		if b, ok := e.(*ssa.BinOp); ok && b.Op == token.ADD && b.X == ssa.Value(phi) {
+			if c, ok := b.Y.(*ssa.Const); ok && c.Value != nil && c.Value.String() == "1" {
+				step = true
+			}
+		}
+	}
+	if !zero || !step || phi.Referrers() == nil {
+		return nil, false
+	}
+	for _, ref := range *phi.Referrers() {
+		cmp, ok := ref.(*ssa.BinOp)
+		if !ok || cmp.Op != token.LSS || cmp.X != ssa.Value(phi) {
+			continue
+		}
+		if call, ok := cmp.Y.(*ssa.Call); ok {
+			if bi, ok := call.Call.Value.(*ssa.Builtin); ok && bi.Name() == "len" {
+				return call.Call.Args[0], true
+			}
+		}
+	}
+	return nil, false
+}
+
+// LoopElem generalises RangeElem to explicit index loops: v is X[i] (loaded) where i is the induction
+// variable of a loop `for i := 0; i < len(X); i++` over the same collection X (value or a local copy of it).
+func LoopElem(v ssa.Value) (coll ssa.Value, ok bool) {
+	if c, _, ok := RangeElem(v); ok {
+		return c, true
+	}
+	u, isLoad := v.(*ssa.UnOp)
+	if !isLoad || u.Op != token.MUL {
+		return nil, false
+	}
+	ia, isIdx := u.X.(*ssa.IndexAddr)
+	if !isIdx {
+		return nil, false
+	}
+	phi, isPhi := ia.Index.(*ssa.Phi)
+	if !isPhi || len(phi.Edges) != 2 {
+		return nil, false
+	}
+	// one edge the constant 0, the other phi+1; the loop condition compares phi with len(X)
+	zero, step := false, false
+	for _, e := range phi.Edges {
+		if c, ok := e.(*ssa.Const); ok && c.Value != nil && c.Value.String() == "0" {
+			zero = true
+		}
+		if b, ok := e.(*ssa.BinOp); ok && b.Op == token.ADD && b.X == ssa.Value(phi) {
+			if c, ok := b.Y.(*ssa.Const); ok && c.Value != nil && c.Value.String() == "1" {
+				step = true
+			}
+		}
+	}
+	if !zero || !step || phi.Referrers() == nil {
+		return nil, false
+	}
+	for _, ref := range *phi.Referrers() {
+		cmp, ok := ref.(*ssa.BinOp)
+		if !ok || cmp.Op != token.LSS || cmp.X != ssa.Value(phi) {
+			continue
+		}
+		if call, ok := cmp.Y.(*ssa.Call); ok {
+			if bi, ok := call.Call.Value.(*ssa.Builtin); ok && bi.Name() == "len" && call.Call.Args[0] == ia.X {
+				return ia.X, true
+			}
+		}
+	}
+	return nil, false
 }
 
 // MapRange: v is the key (idx 1) or value (idx 2) of a map range loop; returns the Range instruction.
